@@ -24,6 +24,22 @@ import (
 	"github.com/gobwas/ws/wsutil"
 )
 
+// budgetDst accepts whole writes while they fit the budget and refuses every write from the first that does not.
+type budgetDst struct {
+	buf  bytes.Buffer
+	left int
+	dead bool
+}
+
+func (d *budgetDst) Write(p []byte) (int, error) {
+	if d.dead || len(p) > d.left {
+		d.dead = true
+		return 0, errDst
+	}
+	d.left -= len(p)
+	return d.buf.Write(p)
+}
+
 // pairConn: the dialer's connection; on the first Read the request written so far is handed to
 // the upgrader (over a chunked reader), whose output becomes the response.
 type pairConn struct {
@@ -168,6 +184,46 @@ func init() {
 		}
 		return fmt.Sprintf("distinct=%d diff=%s %s", len(outcomes), diff, first)
 	}
+	// chdls <urlhex> <resphex>: a rejection (non-101) response and a Dialer.OnStatusError that reads the response
+	// it is handed to its end (http.ReadResponse + body, say): what the callback sees is the server's response,
+	// whatever the chunking and the read buffer
+	ops["chdls"] = func(a []string) string {
+		u, err := url.ParseRequestURI(string(unhx(a[0])))
+		if err != nil {
+			return "SKIP:net/url"
+		}
+		resp := unhx(a[1])
+		outcomes := map[string]int{}
+		var first, diff string
+		for _, rb := range []int{0, 1, 16, 17, 64, 300} {
+			for _, k := range []int{0, 1, 2, 3, 5, 7, 16, 17, 33, 64, 100, len(resp) - 1} {
+				if k < 0 {
+					continue
+				}
+				d := ws.Dialer{ReadBufferSize: rb}
+				seen := "notcalled"
+				d.OnStatusError = func(st int, reason []byte, r io.Reader) {
+					// `reason` is a view into the handshake read buffer: reading on through `r` refills that
+					// buffer, so the callback looks at it first (no property speaks about it afterwards)
+					rs := hx(reason)
+					all, _ := io.ReadAll(r)
+					seen = fmt.Sprintf("%d:%s:%s", st, rs, hx(all))
+				}
+				_, _, err := d.Upgrade(&dlConn{resp: resp, k: k, fin: "E"}, u)
+				o := hsErrClass2(err) + ";" + seen
+				if first == "" {
+					first = o
+				} else if o != first && diff == "" {
+					diff = fmt.Sprintf("rb%d/k%d:%s", rb, k, o)
+				}
+				outcomes[o]++
+			}
+		}
+		if diff == "" {
+			diff = "-"
+		}
+		return fmt.Sprintf("distinct=%d diff=%s first=%s", len(outcomes), diff, first)
+	}
 	ops["dbgup"] = func(a []string) string {
 		req := unhx(a[1])
 		k, _ := strconv.Atoi(a[2])
@@ -189,6 +245,26 @@ func init() {
 		// what stays readable from the connection afterwards
 		left, _ := io.ReadAll(src)
 		return fmt.Sprintf("same=%d calls=%d/%d repreq=%s represp=%s left=%s pleft=%s %s", b2i(dbg == plain), reqCalls, respCalls, hx(gotReq), hx(gotResp), hx(left), hx(pleft), plain)
+	}
+	// dbgupw <ucfg> <reqhex> <k> <wb> <budget>: wsutil.DebugUpgrader over a connection that takes whole writes up to
+	// <budget> bytes and refuses every later one (the client has gone, a reset), the response going out in chunks
+	// of the write buffer <wb>: OnResponse must report exactly the response bytes the connection accepted
+	ops["dbgupw"] = func(a []string) string {
+		req := unhx(a[1])
+		k, _ := strconv.Atoi(a[2])
+		wb, _ := strconv.Atoi(a[3])
+		budget, _ := strconv.Atoi(a[4])
+		c := parseUpCfg(a[0])
+		c.u.WriteBufferSize = wb
+		var gotResp []byte
+		respCalls := 0
+		du := wsutil.DebugUpgrader{Upgrader: c.u,
+			OnRequest:  func(p []byte) {},
+			OnResponse: func(p []byte) { gotResp = append([]byte(nil), p...); respCalls++ }}
+		src, _ := mkReader(req, k, "E")
+		d := &budgetDst{left: budget}
+		_, err := du.Upgrade(rwPair{src, d})
+		return fmt.Sprintf("%s calls=%d represp=%s written=%s", hsErrClass2(err), respCalls, hx(gotResp), hx(d.buf.Bytes()))
 	}
 	ops["dbgdl"] = func(a []string) string {
 		raw := string(unhx(a[1]))
@@ -376,6 +452,21 @@ func genC11(tier string, r *rng) {
 		for _, uc := range upc {
 			for _, k := range []int{0, 1, 16} {
 				run(fmt.Sprintf("dbgup %s %s %d", uc, hx(rq), k))
+			}
+		}
+	}
+	// rejections with a body, seen through OnStatusError
+	for _, body := range []string{"", "no", "tenant is not allowed to connect here, ask your administrator", strings.Repeat("long body ", 40)} {
+		for _, eol := range []string{"\r\n", "\n"} {
+			rej := buildResp("HTTP/1.1 403 Forbidden", []hdr{{"Content-Type", " text/plain"}, {"Content-Length", " " + strconv.Itoa(len(body))}, {"X-Why", " " + strings.Repeat("y", 30)}}, eol, []byte(body))
+			run(fmt.Sprintf("chdls %s %s", hx([]byte("ws://example.com/")), hx(rej)))
+		}
+	}
+	// the connection breaks while the response goes out (whole-write faults), small and default write buffers
+	for _, uc := range upc {
+		for _, wb := range []int{0, 16, 64} {
+			for _, budget := range []int{0, 16, 40, 64, 100, 128, 4096} {
+				run(fmt.Sprintf("dbgupw %s %s %d %d %d", uc, hx(reqs[0]), (wb+budget)%3, wb, budget))
 			}
 		}
 	}
